@@ -566,7 +566,7 @@ func compactionCase(c *lib.Ctx) {
 		Target:     lib.Pick(r, []int{40, 120, 400, 100000}),
 		Levels:     lib.Pick(r, []int{2, 3, 4, 6}),
 	}
-	fs := storage.NewMemoryFilesystem()
+	fs := &faultFS{FileSystem: storage.NewMemoryFilesystem()}
 	tw := sst.NewTableWriter(fs, 0)
 	comp := &sst.Compactor{
 		TableWriter: tw, L0RunNumCompactionTrigger: set.L0Trigger, MaxSizeAmplificationPercent: set.Amp,
@@ -615,6 +615,7 @@ func compactionCase(c *lib.Ctx) {
 	}
 
 	majors, minors, concurrent := 0, 0, 0
+	faultySteps, failedOnFault := 0, 0
 	maxDepth := 0
 	check := func(when string) {
 		wit := map[string]any{"settings": set, "history": hist, "layout": layoutOf(ll)}
@@ -672,7 +673,32 @@ func compactionCase(c *lib.Ctx) {
 		for i := 0; i < 25; i++ {
 			snapshot := ll
 			before := layoutShape(ll)
-			cs, err := comp.Compact(snapshot)
+			// a quarter of the steps meet ONE storage read error somewhere in their input: the step may fail (the layout
+			// stays as it is), but a step that reports success must still have preserved every key
+			faulty := r.Intn(4) == 0
+			if faulty {
+				fs.arm(int64(1 + r.Intn(30)))
+			}
+			var cs *sst.ChangeSet
+			var err error
+			panicked := func() (p any) {
+				defer func() { p = recover() }()
+				cs, err = comp.Compact(snapshot)
+				return nil
+			}()
+			fired := fs.fired.Load()
+			fs.disarm()
+			if faulty && fired {
+				faultySteps++
+				if panicked != nil || err != nil {
+					hist = append(hist, fmt.Sprintf("compact %s: failed on the injected read error (%v %v), layout unchanged", before, panicked, err))
+					failedOnFault++
+					continue
+				}
+				hist = append(hist, "[the next step met an injected read error and reported success]")
+			} else if panicked != nil {
+				panic(panicked)
+			}
 			if err != nil {
 				c.Fail("compaction-error", map[string]any{"settings": set, "history": hist}, "Compact: %v", err)
 			}
@@ -701,6 +727,8 @@ func compactionCase(c *lib.Ctx) {
 	c.Feat("major_steps", int64(majors))
 	c.Feat("minor_steps", int64(minors))
 	c.Feat("steps_composed_with_concurrent_flush", int64(concurrent))
+	c.Feat("steps_with_injected_read_error", int64(faultySteps))
+	c.Feat("steps_failed_on_injected_read_error", int64(failedOnFault))
 	c.Feat(fmt.Sprintf("max_depth_%d", maxDepth), 1)
 	c.SetSig((majors > 0 && minors > 0) || (maxDepth >= 2 && maxDepth < set.Levels-1), set, fmt.Sprint(hist))
 	if c.Index < 3 {
